@@ -225,6 +225,69 @@ def h_keys(ctx, pidx):
     ctx.observe("n", n)
 
 
+def h_demux(ctx, connected):
+    """_recv_next on one datagram with symbolic leading bytes: RFC 7983 demultiplexing.  Every
+    datagram whose first byte is 128..191 reaches SRTP unprotect and then the RTP or RTCP handler
+    (RTCP for packet types 200..207, RTP outside 192..223), 20..63 goes to DTLS, nothing else is delivered."""
+    env = Env(ctx, "controlling", True, PROFILE_NAMES[0], lambda k: bytes(k))
+    with Patch(dtls, SSL=env.ssl, Policy=_Policy, Session=env.Session, certificate_digest=env.certificate_digest, asyncio=env.asyncio):
+        t = _mk_transport(env, "controlling", "client")
+        t._ssl = env.ssl.Connection(None)
+        got = []
+
+        class Rx:
+            def unprotect(self, data):
+                got.append("srtp")
+                return data
+
+            def unprotect_rtcp(self, data):
+                got.append("srtcp")
+                return data
+
+        async def rtp(data, arrival_time_ms):
+            got.append("rtp")
+
+        async def rtcp(data):
+            got.append("rtcp")
+
+        async def no_write():
+            pass
+
+        t._handle_rtp_data = rtp
+        t._handle_rtcp_data = rtcp
+        t._write_ssl = no_write
+        t._ssl.recv = lambda n: got.append("dtls") or b""
+        if connected:
+            t._rx_srtp = Rx()
+            t.encrypted = True
+        b0 = ctx.int("b0", 0, 255)
+        b1 = ctx.int("b1", 0, 255)
+        data = sx.mkbytes([b0, b1] + [0] * 10)
+
+        async def recv():
+            return data
+
+        t.transport._recv = recv
+        sx.run(t._recv_next())
+    ctx.reach("demuxed")
+    is_media = sx.And(b0 >= 128, b0 <= 191)
+    is_dtls = sx.And(b0 >= 20, b0 <= 63)
+    # second byte: 200..207 are the RTCP packet types in use, < 192 or > 223 is unambiguously RTP
+    # (RFC 5761); the rest of 192..223 is the ambiguous zone where either classification is accepted
+    surely_rtcp = sx.And(b1 >= 200, b1 <= 207)
+    surely_rtp = sx.Or(b1 < 192, b1 > 223)
+    if connected:
+        ctx.check(sx.Implies(sx.And(is_media, surely_rtcp), got == ["srtcp", "rtcp"]), "rtcp-datagram-is-unprotected-and-delivered")
+        ctx.check(sx.Implies(sx.And(is_media, surely_rtp), got == ["srtp", "rtp"]), "rtp-datagram-is-unprotected-and-delivered")
+        ctx.check(sx.Implies(is_media, got == ["srtcp", "rtcp"] or got == ["srtp", "rtp"]), "media-datagram-is-delivered-to-one-handler")
+        ctx.check(sx.Implies(sx.Not(is_media), "rtp" not in got and "rtcp" not in got), "only-media-datagrams-reach-the-media-handlers")
+    else:
+        ctx.check(sx.Implies(is_media, got == []), "no-media-before-srtp-keys-exist")
+    ctx.check(sx.Iff(is_dtls, got == ["dtls"]), "dtls-record-goes-to-the-dtls-engine")
+    ctx.check(sx.Implies(sx.Not(sx.Or(is_media, is_dtls)), got == []), "other-datagrams-are-dropped")
+    ctx.observe("got", got)
+
+
 def _policy_jobs(tier):
     import itertools
 
@@ -258,6 +321,7 @@ STUBS = [
 OUT = ["the DTLS handshake, certificate parsing, SRTP encryption/authentication (OpenSSL, libsrtp): 'packets altered in transit are discarded' is not claimed"]
 
 HARNESSES = {
+    "demux": Harness("demux", h_demux, lambda tier: [{"connected": c} for c in (True, False)], style="STEP", bounds="one datagram, first two bytes symbolic (all 65536 values), transport with / without SRTP sessions", encoded=["aiortc.rtcdtlstransport:RTCDtlsTransport._recv_next", "aiortc.rtp:is_rtcp"], stubs=["SRTP session -> identity recorder; DTLS engine -> recorder; RTP/RTCP handlers -> recorders"], outside=["SRTP authentication itself (libsrtp)"], twin="demuxed", opts={"samples": 1}),
     "policy": Harness("policy", h_policy, _policy_jobs, style="STEP", bounds="fingerprint lists of 0..2 (quick) / 0..3 entries, algorithm from {sha-256, SHA-256, Sha-384, sha-512, sha-1, md5}, values 2 symbolic characters 0x30..0x7A (any case, equal or not to the digest), handshake ok/failed, 4 SRTP profile outcomes, DTLS role auto/client/server", encoded=ENC, stubs=STUBS, outside=OUT, twin="started", opts={"samples": 1}),
     "keys": Harness("keys", h_keys, lambda tier: [{"pidx": i} for i in range(len(SRTP_PROFILES))], style="RT", bounds="every available SRTP profile, both roles, fully symbolic keying material", encoded=ENC, stubs=STUBS, outside=OUT, twin="keys-derived"),
 }
